@@ -24,7 +24,7 @@ class C11(Prop):
             "reference, constant key or string, followed by >= 1 mutating step; deep/cyclic shapes count by shape; distinct by case hash")
     ASSUMPTIONS = ["N = LIMIT+1 containers gets no verdict (the code counts node depth, the statement says 'nested deeper than the limit': "
                    "whether the innermost empty container of LIMIT+1 counts is left open)"]
-    REQUIRED_CLASSES = ["program", "deep_accept", "deep_refuse", "cyclic", "copy_of_reference", "copy_with_const_key", "non_recursive"]
+    REQUIRED_CLASSES = ["program", "deep_accept", "deep_refuse", "deep_with_siblings", "cyclic", "copy_of_reference", "copy_with_const_key", "non_recursive"]
 
     def budget(self, tier):
         return {"workers": 14, "examples": 500 if tier == "quick" else 12000}
@@ -33,9 +33,9 @@ class C11(Prop):
         prog = st.fixed_dictionaries({"kind": st.just("program"), "seeds": seed_trees(), "ops": op_records(OPS_BEFORE, 40),
                                       "which": st.integers(0, 4095), "after": op_records(OPS_AFTER, 25)})
         deep = st.fixed_dictionaries({"kind": st.just("deep"), "rel": st.sampled_from([-1, 0, 2, 3, -2, 5]), "pattern": st.integers(0, 7),
-                                      "leaf": st.booleans()})
+                                      "leaf": st.booleans(), "siblings": st.sampled_from([0, 0, 1, 2, 7, 1000])})
         cyc = st.fixed_dictionaries({"kind": st.just("cyclic"), "shape": st.sampled_from(["self", "two", "below_prefix"]),
-                                     "prefix": st.integers(1, 6), "pattern": st.integers(0, 7)})
+                                     "prefix": st.integers(1, 6), "pattern": st.integers(0, 7), "siblings": st.sampled_from([0, 1, 2])})
         return st.one_of(prog, prog, prog, prog, prog, prog, prog, prog, prog, prog, prog, prog, deep, cyc)
 
     # ------------------------------------------------------------------
@@ -152,7 +152,7 @@ class C11(Prop):
     def run_deep(self, lib, case, stats):
         limit = lib.circular_limit
         n = limit + case["rel"]
-        root = lib.shim_make_chain(n, case["pattern"], 1 if case["leaf"] else 0)
+        root = lib.shim_make_chain(n, case["pattern"], 1 if case["leaf"] else 0, case.get("siblings", 0))
         if not root:
             raise Violation("harness: could not build the chain", key="harness")
         total = n + (1 if case["leaf"] else 0)
@@ -175,7 +175,9 @@ class C11(Prop):
                     raise Violation("Duplicate accepted %d nested containers (CJSON_CIRCULAR_LIMIT is %d)" % (n, limit), key="deep-accepted")
                 if lib.ledger_live_since(mark) != 0:
                     raise Violation("a refused Duplicate left allocations behind", key="leak")
-            stats.nontriv(["deep", n - limit, case["pattern"], case["leaf"]], {"nested_containers": n, "limit": limit, "leaf": case["leaf"], "copied": bool(cp)})
+            if case.get("siblings"):
+                stats.cls("deep_with_siblings")
+            stats.nontriv(["deep", n - limit, case["pattern"], case["leaf"], case.get("siblings", 0)], {"nested_containers": n, "limit": limit, "leaf": case["leaf"], "copied": bool(cp)})
         finally:
             if cp:
                 lib.cJSON_Delete(cp)
@@ -184,7 +186,7 @@ class C11(Prop):
     def run_cyclic(self, lib, case, stats):
         shape = case["shape"]
         prefix = case["prefix"]
-        root = lib.shim_make_chain(prefix + 2, case["pattern"], 0)
+        root = lib.shim_make_chain(prefix + 2, case["pattern"], 0, case.get("siblings", 0))
         # the innermost container is empty; close a cycle by writing child directly
         inner = lib.shim_chain_node(root, prefix + 1)
         if shape == "self":
@@ -213,7 +215,7 @@ class C11(Prop):
                 raise Violation("non-recursive duplicate of a node inside a cycle failed or has children", key="nonrecursive-children")
             lib.cJSON_Delete(cp0)
             stats.cls("cyclic")
-            stats.nontriv(["cyclic", shape, prefix, case["pattern"]], {"cycle": shape, "healthy_prefix": prefix})
+            stats.nontriv(["cyclic", shape, prefix, case["pattern"], case.get("siblings", 0)], {"cycle": shape, "healthy_prefix": prefix})
         finally:
             lib.shim_poke_child(inner, None)
             if lib.shim_chain_hash(root, prefix + 2) != before:
